@@ -151,16 +151,27 @@ def r2(p, rep):
     ok = clash_node is not None and sn is not None and cfg.dominates(clash_node, sn)
     rep.add("C15.R2", f"{f.qualname}:clash-before-split", f.loc, ok, f"`{names_src[:60]}` -> SemanticError dominates the split" if ok else why)
     # the names tested are all axis names of inputs and outputs
+    from . import ir
+
     dom_ok = False
+    # the input and output expressions: the names bound from the parse step `ins, outs[, ...] = _parse_op(...)`
+    io = None
+    for a in walk_no_nested(f.node):
+        if isinstance(a, ast.Assign) and isinstance(a.value, ast.Call) and len(a.targets) == 1 and isinstance(a.targets[0], ast.Tuple) and len(a.targets[0].elts) >= 2 and all(isinstance(e, ast.Name) for e in a.targets[0].elts[:2]):
+            r = resolve_callee(p, a.value, f.module)
+            if r and r[0] == "func" and r[1].name == "_parse_op":
+                io = {a.targets[0].elts[0].id, a.targets[0].elts[1].id}
+    if io is None:
+        raise AnalysisError(f"unrecognised idiom: {f.qualname} does not bind the input and output expressions from _parse_op(...)")
     for g in helpers:
         for n in walk_no_nested(g.node):
             if isinstance(n, (ast.SetComp, ast.ListComp)) and ".nodes()" in norm(n) and ".name" in norm(n.elt):
-                src_text = norm(n)
-                if "exprs_in + exprs_out" in src_text:
+                names = ir.derive(g.node, n)[0]
+                if g is f and io <= names:
                     dom_ok = True
                 elif g is not f:
                     calls = [c for c in walk_no_nested(f.node) if isinstance(c, ast.Call) and resolve_callee(p, c, f.module) == ("func", g)]
-                    if any("exprs_in + exprs_out" in norm(c) for c in calls):
+                    if any(io <= ir.derive(f.node, c)[0] for c in calls):
                         dom_ok = True
     rep.add("C15.R2", f"{f.qualname}:clash-domain", f.loc, dom_ok, "the clash test ranges over every axis name of all input and output expressions")
     # _make_iskwarg: exactly the KEYWORD_ONLY parameters
